@@ -191,10 +191,16 @@ def ss_pre_tip911():
     return dict(ensures=[C("root", "HashVal(novasmt::root_of(res@)) == spec_root_stakes(self@)", "C07", "C13")])
 def st_header_full():
     return dict(requires=[C("chain", "chain_ok(self.0) && txs_keyed(self.0.transactions@)")], ensures=[C("is", "res == spec_header(self.0)", "C07", "C06")])
-def st_tip906_transition():
-    return dict(requires=[C("wf", "old(next_state).coins.wf()"), C("fresh", "old(next_state).coins@.counts == IMap::<Address, nat>::empty()")],
-                ensures=[C("counts", "final(next_state).coins.wf() && final(next_state).coins@.coins == old(next_state).coins@.coins && counts_ok(final(next_state).coins@)", "C20"),
-                         C("frame", "same_but_coins(*final(next_state), *old(next_state))", "C20")])
+def st_tip906_transition(proj=False):
+    """apply_tip_906_for_next_state touches only next_state.coins: proved in unit `coins` over that field (rule R21), assumed elsewhere over the whole state"""
+    o, f = ("old(coins)", "final(coins)") if proj else ("old(next_state).coins", "final(next_state).coins")
+    d = dict(requires=[C("wf", f"{o}.wf()"), C("fresh", f"{o}@.counts == IMap::<Address, nat>::empty()"),
+                       C("only_coins", f"{o}.only_coins()", note="the pre-activation coin tree holds coin entries only (the `expect(\"pre-tip906 coin tree has non-cdh elements?!\")` panics otherwise)")],
+             ensures=[C("counts", f"{f}.wf() && {f}@.coins == {o}@.coins && counts_ok({f}@)", "C20",
+                        note="one-off initialisation at TIP-906 activation: afterwards every covenant hash's count equals its number of unspent coins")])
+    if not proj:
+        d["ensures"].append(C("frame", "same_but_coins(*final(next_state), *old(next_state))", "C20", note="the function takes the state but touches only its coins field (checked by rule R21 in the proving unit)"))
+    return d
 
 def mm_preseal():
     return dict(requires=[C("inv", "state_inv(state) && pools_ok(state.pools@) && builtins_if_present(state)"),
@@ -225,7 +231,8 @@ def st_seal_full():
                          C("inv", "res.0.coins.wf() && spec_builtin_pools(res.0)", "C16", "C20")])
 
 def st_next_unsealed():
-    return dict(requires=[C("chain", "chain_ok(self.0) && self.0.height.0 < u64::MAX"), C("wf", "state_inv(self.0)")],
+    return dict(requires=[C("chain", "chain_ok(self.0) && self.0.height.0 < u64::MAX"), C("wf", "state_inv(self.0)"),
+                          C("clean", "!spec_tip906(self.0) ==> self.0.coins.only_coins()", note="tree invariant assumed: before TIP-906 activates the coin tree holds coin entries only")],
                 ensures=[C("det", "res == spec_next(*self)", det=True),
                          C("next", "next_rel(self.0, res)", "C07", "C13"),
                          C("chain", "chain_ok(res)", "C07"),
